@@ -329,7 +329,20 @@ class Violation(object):
         s.extra = extra or {}
 
     def input_values(s):
-        return [(n, (s.model or {}).get(n, 0) & ((1 << w) - 1), w, k) for n, w, k in s.inputs]
+        """values for the native replay: the model's value, and for inputs the solver left unconstrained a
+        pseudo-random value derived from the input's name (arbitrary data instead of all zeros)"""
+        import hashlib
+        m = s.model or {}
+        out = []
+        for n, w, k in s.inputs:
+            if n in m:
+                v = m[n]
+            elif k == 'choice':
+                v = 0
+            else:
+                v = int.from_bytes(hashlib.sha256(n.encode()).digest()[:8], 'little')
+            out.append((n, v & ((1 << w) - 1), w, k))
+        return out
 
     def to_json(s):
         return dict(kind=s.kind, msg=s.msg, where=s.where, extra=s.extra,
@@ -629,6 +642,7 @@ class Executor(object):
             raise PathEnd('assume_false', '')
         for v in sv:
             nm = v.a[0].split('#')[0][6:]
+            st.flags['stale_seen'] = nm
             s.violations.append(Violation('stale_dependence', '%s depends on the caller-visible size/length field '
                                           '"%s" that the library is expected to derive itself (in %s)' % (
                                               what, nm, s.where(st).split(' <- ')[0]),
@@ -707,7 +721,41 @@ class Executor(object):
         c = st.simp(c)
         if type(c) is not E:
             return bool(c), None
-        c = s.pin_stale(st, c, 'a branch')
+        sv = [v for v in X.free_vars(c) if v.a[0].startswith('stale:')]
+        if sv and st.cmodel is None:
+            # a branch steered by a size/length member the library should derive itself: reported, then BOTH feasible
+            # outcomes are followed, each with the stale members pinned to a witness of that outcome
+            nc = X.lnot(c)
+            ok_t, m_t = s.solver.check(st.pc, (c,))
+            ok_f, m_f = s.solver.check(st.pc, (nc,))
+            for v in sv:
+                nm = v.a[0].split('#')[0][6:]
+                st.flags['stale_seen'] = nm
+                s.violations.append(Violation('stale_dependence', 'a branch depends on the caller-visible size/length field '
+                                              '"%s" that the library is expected to derive itself (in %s)' % (
+                                                  nm, s.where(st).split(' <- ')[0]),
+                                              m_t if ok_t else m_f, list(st.inputs), s.where(st)))
+            if not ok_t and not ok_f:
+                raise PathEnd('assume_false', 'infeasible path')
+            other = None
+            if ok_t and ok_f:
+                other = st.fork()
+                other.pc.append(nc)
+                for v in sv:
+                    val = m_f.get(v.a[0], 0) & ((1 << v.w) - 1)
+                    other.pc.append(X.eq(v, val, v.w))
+                    other.sub[v] = val
+                other.submemo = {}
+                other.model = None
+            side, m = (True, m_t) if ok_t else (False, m_f)
+            st.pc.append(c if side else nc)
+            for v in sv:
+                val = m.get(v.a[0], 0) & ((1 << v.w) - 1)
+                st.pc.append(X.eq(v, val, v.w))
+                st.sub[v] = val
+            st.submemo = {}
+            st.model = None
+            return side, other
         if type(c) is not E:
             return bool(c), None
         if st.cmodel is not None:
@@ -783,7 +831,7 @@ class Executor(object):
                     w = st.watch.get(o.base)
                     if w is not None:
                         (w[2] if write else w[4]).update(range(off, off + n))
-                if s.race_detect and len(st.threads) > 1:
+                if s.race_detect and len(st.threads) > 1 and not (o.name or '').startswith('@vp_'):     # vp_*: counters of the environment stubs, not library state
                     s.race_check(st, o, off, n, write)
                 if s.trace_mem is not None:
                     s.trace_mem(st, o, off, n, write)
@@ -957,8 +1005,6 @@ class Executor(object):
         (a violation with a model if it can), then enumerate the in-bounds values"""
         if type(n) is E:
             n = st.simp(n)
-        if type(n) is E:
-            n = s.pin_stale(st, n, 'a copy length')
         if type(n) is not E:
             return n
         lim = None
@@ -983,6 +1029,9 @@ class Executor(object):
                     raise PathEnd('exit', 'copy always out of bounds')
                 st.pc.append(X.lnot(over))
                 st.model = m2
+        n = s.pin_stale(st, n, 'a copy length')
+        if type(n) is not E:
+            return n
         return s.need_int(st, n, 'copy length')
 
     def cstring(s, st, addr, maxlen=4096):
